@@ -2,9 +2,11 @@ import TensorModel.Ext.Hooks
 import TensorModel.Ext.MinMax
 import TensorModel.Ext.Engines
 import TensorModel.Ext.History
+import TensorModel.Ext.Linalg
+import TensorModel.Ext.Serial
 /-! Registry of operation families (one import + one list entry per family). -/
 namespace TM
 
-def families : List Family := [minMaxFamily, enginesFamily, historyFamily]
+def families : List Family := [minMaxFamily, enginesFamily, historyFamily, linalgFamily, serialFamily]
 
 end TM
